@@ -221,6 +221,28 @@ func viewConfig(cfg int) ([]sdkmetric.View, map[string][]streamSpec, string) {
 			sdkmetric.NewView(sdkmetric.Instrument{Name: "c?"}, sdkmetric.Stream{AttributeFilter: attribute.NewAllowKeysFilter("a", "b")}))
 		specs["ci"] = []streamSpec{{out: "ci_same", agg: "sum"}, {out: "ci", filter: "allow-ab", agg: "sum"}}
 		specs["cf"] = []streamSpec{{out: "cf", filter: "allow-ab", agg: "sum"}}
+	case 9:
+		name = "three views, first and third on the same stream; a drop view before a keeping view"
+		views = append(views, sdkmetric.NewView(sdkmetric.Instrument{Name: "ci"}, sdkmetric.Stream{Name: "ci_same"}),
+			sdkmetric.NewView(sdkmetric.Instrument{Name: "ci"}, sdkmetric.Stream{Name: "ci_by_a", AttributeFilter: attribute.NewAllowKeysFilter("a")}),
+			sdkmetric.NewView(sdkmetric.Instrument{Name: "ci", Kind: sdkmetric.InstrumentKindCounter}, sdkmetric.Stream{Name: "ci_same"}),
+			sdkmetric.NewView(sdkmetric.Instrument{Name: "cf"}, sdkmetric.Stream{Aggregation: sdkmetric.AggregationDrop{}}),
+			sdkmetric.NewView(sdkmetric.Instrument{Name: "cf", Kind: sdkmetric.InstrumentKindCounter}, sdkmetric.Stream{Name: "cf_kept"}),
+			sdkmetric.NewView(sdkmetric.Instrument{Name: "oci"}, sdkmetric.Stream{Aggregation: sdkmetric.AggregationDrop{}}),
+			sdkmetric.NewView(sdkmetric.Instrument{Name: "oci", Kind: sdkmetric.InstrumentKindObservableCounter}, sdkmetric.Stream{Name: "oci_kept"}))
+		specs["ci"] = []streamSpec{{out: "ci_same", agg: "sum"}, {out: "ci_by_a", filter: "allow-a", agg: "sum"}}
+		specs["cf"] = []streamSpec{{out: "cf", agg: "drop"}, {out: "cf_kept", agg: "sum"}}
+		specs["oci"] = []streamSpec{{out: "oci", agg: "drop", async: true}, {out: "oci_kept", agg: "sum", async: true}}
+	case 10:
+		// a histogram fed by a callback is an ordinary histogram: every collection of a reader adds that
+		// cycle's observations once (cumulative accumulates, delta starts afresh); monotonic kinds keep their sum
+		name = "asynchronous instruments re-aggregated to histograms"
+		views = append(views, sdkmetric.NewView(sdkmetric.Instrument{Name: "oci"}, sdkmetric.Stream{Aggregation: sdkmetric.AggregationExplicitBucketHistogram{Boundaries: histBounds}}),
+			sdkmetric.NewView(sdkmetric.Instrument{Name: "ogi"}, sdkmetric.Stream{Aggregation: sdkmetric.AggregationBase2ExponentialHistogram{MaxSize: 160, MaxScale: 20}}),
+			sdkmetric.NewView(sdkmetric.Instrument{Name: "ci"}, sdkmetric.Stream{Aggregation: sdkmetric.AggregationBase2ExponentialHistogram{MaxSize: 160, MaxScale: 20}}))
+		specs["oci"] = []streamSpec{{out: "oci", agg: "hist"}}
+		specs["ogi"] = []streamSpec{{out: "ogi", agg: "hist-nosum"}}
+		specs["ci"] = []streamSpec{{out: "ci", agg: "hist"}}
 	case 8:
 		name = "valid views next to an incompatible sibling view"
 		views = append(views, sdkmetric.NewView(sdkmetric.Instrument{Name: "ci"}, sdkmetric.Stream{Name: "ci_valid", AttributeFilter: attribute.NewAllowKeysFilter("a")}),
@@ -320,7 +342,7 @@ func runHistory(k *vf.Case) {
 		fmt.Sscan(Lname, &L)
 	}
 	defer os.Unsetenv("OTEL_GO_X_CARDINALITY_LIMIT")
-	cfg := r.Intn(9)
+	cfg := r.Intn(11)
 	views, specs, cfgName := viewConfig(cfg)
 	dr := sdkmetric.NewManualReader(sdkmetric.WithTemporalitySelector(func(sdkmetric.InstrumentKind) metricdata.Temporality { return metricdata.DeltaTemporality }))
 	cr := sdkmetric.NewManualReader()
@@ -577,9 +599,18 @@ func runConcurrent(k *vf.Case) {
 	temp := vf.Pick(r, []metricdata.Temporality{metricdata.DeltaTemporality, metricdata.CumulativeTemporality})
 	rd := sdkmetric.NewManualReader(sdkmetric.WithTemporalitySelector(func(sdkmetric.InstrumentKind) metricdata.Temporality { return temp }))
 	mp := sdkmetric.NewMeterProvider(sdkmetric.WithReader(rd))
-	m := mp.Meter("c12c")
-	ci, _ := m.Int64Counter("ci")
-	hf, _ := m.Float64Histogram("hf")
+	// in half of the cases nobody creates the instruments beforehand: every goroutine asks for its own
+	// meter and instruments after the barrier, so first-time creations of one identity overlap
+	lateCreate := r.Bool()
+	var ci metric.Int64Counter
+	var hf metric.Float64Histogram
+	if !lateCreate {
+		m := mp.Meter("c12c")
+		ci, _ = m.Int64Counter("ci")
+		hf, _ = m.Float64Histogram("hf")
+	} else {
+		k.C.Count("concurrent_cases_with_overlapping_first_creation", 1)
+	}
 	G := vf.Pick(r, []int{4, 8, 16})
 	var wg sync.WaitGroup
 	release := make(chan struct{})
@@ -593,6 +624,12 @@ func runConcurrent(k *vf.Case) {
 			gr := vf.NewRNG(seed)
 			var lt, lc int64
 			<-release
+			ci, hf := ci, hf
+			if lateCreate {
+				m := mp.Meter("c12c")
+				ci, _ = m.Int64Counter("ci")
+				hf, _ = m.Float64Histogram("hf")
+			}
 			for i := 0; i < 200; i++ {
 				o := metric.WithAttributeSet(attribute.NewSet(attribute.Int("a", gr.Intn(L+3)), attribute.Int("g", g%2)))
 				v := int64(1 + gr.Intn(9))
